@@ -70,11 +70,12 @@ type SessCfg struct {
 	SetNoDelay                     bool
 	Stream, WriteDelay, AckNoDelay bool
 	RateLimit                      uint32
+	Dup                            int // SetDUP: extra copies of every data datagram (a testing knob of the library)
 }
 
 func (c SessCfg) String() string {
-	return fmt.Sprintf("wnd=%d/%d mtu=%d nodelay=%v(%d,%d,%d,%d) stream=%v wdelay=%v acknodelay=%v rate=%d",
-		c.SndWnd, c.RcvWnd, c.MTU, c.SetNoDelay, c.NoDelay, c.Interval, c.Resend, c.NC, c.Stream, c.WriteDelay, c.AckNoDelay, c.RateLimit)
+	return fmt.Sprintf("wnd=%d/%d mtu=%d nodelay=%v(%d,%d,%d,%d) stream=%v wdelay=%v acknodelay=%v rate=%d dup=%d",
+		c.SndWnd, c.RcvWnd, c.MTU, c.SetNoDelay, c.NoDelay, c.Interval, c.Resend, c.NC, c.Stream, c.WriteDelay, c.AckNoDelay, c.RateLimit, c.Dup)
 }
 
 var wndChoices = []int{0, 1, 2, 3, 4, 8, 16, 64, 128, 256, 1024, 1500}
@@ -130,6 +131,9 @@ func (c SessCfg) Apply(sess *kcp.UDPSession) (mtuOK bool) {
 	}
 	if c.AckNoDelay {
 		sess.SetACKNoDelay(true)
+	}
+	if c.Dup > 0 {
+		sess.SetDUP(c.Dup)
 	}
 	if c.RateLimit > 0 {
 		sess.SetRateLimit(c.RateLimit)
@@ -187,6 +191,9 @@ type Endpoint struct {
 	// RecoveredUnderWrongRatio: the library counted a FEC recovery while this
 	// endpoint's decoder used a ratio different from its peer's encoder.
 	RecoveredUnderWrongRatio bool
+
+	lastRaw uint64 // hash of the last datagram emitted (configured duplicates, SetDUP)
+	dupRun  int
 
 	fecGrp     uint32 // current FEC group of this endpoint's encoder (wire view)
 	fecGrpInit bool
